@@ -121,6 +121,7 @@ class Exec:
         self.exc_sinks = []        # stack of lists collecting ('raise') outcomes
         self.ret_sink = None
         self.loop_sinks = []       # stack of lists collecting 'next' (continue) paths for the innermost loop body
+        self.break_sinks = []      # likewise for `break`
         self.loop_hook = None      # lockstep installs a hook that pairs loops with the other side's records
         self.notes = []
         self.writes = None         # when not None: set collecting written location keys (dry run)
@@ -234,6 +235,11 @@ class Exec:
             if not self.loop_sinks:
                 raise Unsupported("continue outside loop", s)
             self.loop_sinks[-1].append(p)
+            return []
+        if isinstance(s, ast.Break):
+            if not self.break_sinks:
+                raise Unsupported("break outside a summarised loop", s)
+            self.break_sinks[-1].append(p)
             return []
         if isinstance(s, (ast.Import, ast.ImportFrom)):
             self.notes.append("local import ignored at line %d" % s.lineno)
@@ -874,15 +880,19 @@ class Exec:
         self.ret_sink = rets
         self.exc_sinks.append(outs)
         self.loop_sinks.append(conts)
+        brks = []
+        self.break_sinks.append(brks)
         try:
             live = []
             for q2 in self.assign(s.target, elem, q):
                 live.extend(self.block(s.body, [q2]))
         finally:
+            self.break_sinks.pop()
             self.loop_sinks.pop()
             self.exc_sinks.pop()
             self.ret_sink = saved_ret
         res = [Outcome("next", q2) for q2 in live + conts]
+        res += [Outcome("brk", q2) for q2 in brks]
         res += rets
         res += outs
         return res
@@ -985,6 +995,12 @@ class Exec:
             pe = q.assume(rec.exit > 0)
             if self.feasible(pe):
                 self.raise_(pe, rec.exit, rec.msg, rec.node.lineno)
+        if any(o.kind == "brk" for o in rec.body):
+            # left by `break`: the written locations hold what the breaking iteration left (the same shared constants: a loop that
+            # ends by break or by exhaustion is summarised by its final state either way); distinguished by the exit code -2
+            pb = q.assume(rec.exit == -2)
+            if self.feasible(pb):
+                res.append(pb)
         pn = q.assume(rec.exit == 0)
         if self.feasible(pn):
             res.append(pn)
